@@ -45,6 +45,7 @@ func runC17(c *Ctx) {
 	poolDisciplineRule(c)
 	lazyInitRule(c)
 	atomicUpdateRule(c)
+	locksNotCopied(c)
 }
 
 // atomicUpdateRule: a package-level atomic cell or concurrent map is individually safe, but a
@@ -627,6 +628,67 @@ func perCallReads(c *Ctx, name string) {
 	if n == 0 {
 		c.okTrivial(R, name, c.P.Pos(d.fd.Pos()), "no read through the receiver's options")
 	}
+	// a local that holds a per-call option (x := opt.F, also in a tuple) may be replaced by a
+	// fallback only where that very option is known to be empty: `if so == nil || ro == nil
+	// { so, ro = defaults… }` throws away a RenderOptions the caller did give
+	copies := map[types.Object]string{}
+	ast.Inspect(d.fd.Body, func(node ast.Node) bool {
+		as, ok := node.(*ast.AssignStmt)
+		if !ok || as.Tok != token.DEFINE || len(as.Lhs) != len(as.Rhs) {
+			return true
+		}
+		for i, l := range as.Lhs {
+			if _, isCall := as.Rhs[i].(*ast.CallExpr); isCall {
+				continue
+			}
+			if f, ok := fieldOf(d.pkg, as.Rhs[i], opt); ok && f != "" {
+				if lo := objOf(d.pkg, l); lo != nil {
+					copies[lo] = f
+				}
+			}
+		}
+		return true
+	})
+	ast.Inspect(d.fd.Body, func(node ast.Node) bool {
+		as, ok := node.(*ast.AssignStmt)
+		if !ok || as.Tok != token.ASSIGN {
+			return true
+		}
+		for _, l := range as.Lhs {
+			lo := objOf(d.pkg, l)
+			field, isCopy := copies[lo]
+			if !isCopy || lo == nil {
+				continue
+			}
+			knownEmpty := false
+			chain := enclosing(d.fd.Body, as)
+			for i, en := range chain {
+				ifs, isIf := en.(*ast.IfStmt)
+				if !isIf || i+1 >= len(chain) {
+					continue
+				}
+				positive := chain[i+1] == ast.Node(ifs.Body)
+				if !positive && chain[i+1] != ifs.Else {
+					continue
+				}
+				for _, fa := range condFactsLocal(d.pkg, ifs.Cond, positive, lo) {
+					if !fa {
+						knownEmpty = true
+					}
+				}
+				// or the same test spelled on the option itself
+				for _, fa := range condFacts(d.pkg, ifs.Cond, positive, opt) {
+					if fa.field == field && !fa.nonEmpty {
+						knownEmpty = true
+					}
+				}
+			}
+			c.check(knownEmpty, R, fmt.Sprintf("%s#fallback(%s)", name, field), c.P.Pos(as.Pos()),
+				"the per-call "+field+" is replaced only where it is empty",
+				fmt.Sprintf("%s replaces the per-call %s (held in %s) by a fallback on a path where it is not known to be empty: options given to this call are dropped", name, field, lo.Name()))
+		}
+		return true
+	})
 	_ = typeutil.Callee
 }
 
